@@ -27,7 +27,9 @@ CHECKS['C18'] = {'pkg': 'lock',
 
 CHECKS['C19'] = {'pkg': 'lock',
  'tests': [{'name': 'TestC19Etcd', 'quick': 45, 'thorough': 16000, 'shrinktime': '10s'},
-           {'name': 'TestC19Redis', 'quick': 10, 'thorough': 320, 'shrinktime': '10s'}],
+           {'name': 'TestC19Redis', 'quick': 10, 'thorough': 320, 'shrinktime': '10s'},
+           {'name': 'TestC19EtcdOutage', 'quick': 3, 'thorough': 160, 'shrinktime': '20s'},
+           {'name': 'TestC19Calcium', 'quick': 12, 'thorough': 1600, 'shrinktime': '30s', 'pkg': 'cluster'}],
  'level': 'exploration',
  'technique': 'property-based testing (rapid) with injected lease loss: etcd lease of the holder revoked through the raw client while contenders wait; Redis '
               'TTL elapsed in real time and with miniredis.FastForward',
